@@ -449,6 +449,7 @@ func runC07(c *an.Ctx) {
 	ruleT3(c)
 	ruleT4(c)
 	ruleT5(c)
+	ruleT6(c)
 }
 
 func ruleT2(c *an.Ctx) {
